@@ -5,7 +5,8 @@ conf="--skip-confirm"; [ "$1" = "--confirm" ] && conf=""
 for d in seeded/C*-[0-9]; do
   s=$(basename $d)
   props=""
-  case $s in C07-3) props="--props C07,C08";; C01-6) props="--props C01,C11";; esac
+  case $s in C07-3) props="--props C07,C08";; C01-6|C01-7) props="--props C01,C11";;
+    C01-8) props="--props C01,C03,C12";; C07-8) props="--props C07,C09";; esac
   [ -f $d/NOTE.md ] && { echo "$s neutralised (see NOTE.md)"; continue; }
   tools/rebase_seed.sh $d >/dev/null 2>&1
   r=$(python3 tools/seedtest.py $d $conf $props 2>&1 | grep -E '"confirmed"|"caught"' | tr -d ' \n')
